@@ -30,13 +30,14 @@ type violation struct {
 }
 
 type searcher struct {
-	r      *hx.Rng
-	evals  int
-	seen   map[string]bool
-	viol   []violation
-	perKey map[string]int
-	counts map[string]int
-	sample []map[string]string
+	r       *hx.Rng
+	evals   int
+	seen    map[string]bool
+	viol    []violation
+	perKey  map[string]int
+	counts  map[string]int
+	sample  []map[string]string
+	outPath string
 }
 
 func (s *searcher) report(key, desc string, expected string, ops ...string) {
@@ -45,6 +46,30 @@ func (s *searcher) report(key, desc string, expected string, ops ...string) {
 		return
 	}
 	s.viol = append(s.viol, violation{Key: key, Desc: desc, Replay: map[string]interface{}{"ops": ops, "expected": expected}})
+	s.flush()
+}
+
+// flush prints the violation just found and rewrites the (partial) result file, so that nothing found is
+// lost if a later phase crashes or is killed.
+func (s *searcher) flush() {
+	if len(s.viol) > 0 {
+		b, _ := json.Marshal(s.viol[len(s.viol)-1])
+		fmt.Println("FOUND " + string(b))
+	}
+	s.write(false)
+}
+
+func (s *searcher) write(final bool) {
+	if s.outPath == "" {
+		return
+	}
+	res := map[string]interface{}{"evaluations": s.evals, "distinct": s.evals, "violations": s.viol, "samples": s.sample, "counts": s.counts, "complete": final}
+	if s.viol == nil {
+		res["violations"] = []violation{}
+	}
+	b, _ := json.MarshalIndent(res, "", " ")
+	_ = os.WriteFile(s.outPath+".tmp", b, 0644)
+	_ = os.Rename(s.outPath+".tmp", s.outPath)
 }
 
 func (s *searcher) note(op, res string) {
@@ -451,6 +476,7 @@ func (s *searcher) concurrent(workers, perWorker int) {
 				"observed": hx.Hex(b.got) + " " + b.detail,
 				"rerun":    fmt.Sprintf("harness/bin/c16 mode=search only=concurrent workers=%d (VERIF_SEED as recorded); evidence, not proof: needs an interleaving", workers),
 			}})
+		s.flush()
 	}
 }
 
@@ -537,7 +563,106 @@ func (s *searcher) history(n int) {
 	s.counts["history-calls"] = len(lines) * (1 + len(orders))
 }
 
+// retention: results are KEPT and re-checked after later calls; input buffers are reused and mutated after
+// the call. A returned slice aliasing a reused buffer, or an argument captured by reference, shows here.
+func (s *searcher) retention(n int) {
+	type kept struct {
+		pk, m, pi, piCopy  []byte
+		padded, paddedCopy []byte
+		rat                *big.Rat
+		ratStr             string
+	}
+	var ks []kept
+	skBuf := make([]byte, 64)
+	mBuf := make([]byte, 48)
+	for i := 0; i < n; i++ {
+		pk, sk := s.key()
+		copy(skBuf, sk)
+		copy(mBuf, s.r.Bytes(48))
+		mlen := s.r.Pick(0, 16, 32, 48)
+		pi, err := ed25519.ECVRFProve(ed25519.PrivateKey(skBuf), mBuf[:mlen])
+		s.evals++
+		if err != nil {
+			continue
+		}
+		k := kept{pk: append([]byte{}, pk...), m: append([]byte{}, mBuf[:mlen]...), pi: pi, piCopy: append([]byte{}, pi...)}
+		short := new(big.Int).SetBytes(pi).Bytes()
+		if len(short) == 80 {
+			short = short[:79-s.r.Intn(3)] // force the padding path
+		}
+		k.padded = ed25519.VerifC16TryZeroPadding(short)
+		k.paddedCopy = append([]byte{}, k.padded...)
+		k.rat = logical.VerifC16CalcStakeRatio(uint64(1+s.r.Intn(3)), uint64(1+s.r.Intn(50)))
+		k.ratStr = k.rat.RatString()
+		ks = append(ks, k)
+		// mutate the input buffers after the call
+		for j := range skBuf {
+			skBuf[j] ^= 0xa5
+		}
+		for j := range mBuf {
+			mBuf[j] ^= 0x5a
+		}
+		// other calls in between
+		hx.Guard(func() string { return exec(fmt.Sprintf("qn %d %s 10 0 %d", threshold(), hx.Hex(pi), 1+s.r.Intn(9))) })
+	}
+	for i, k := range ks {
+		s.evals++
+		if !bytes.Equal(k.pi, k.piCopy) {
+			s.report("retained-proof-changed", fmt.Sprintf("the proof returned by ECVRFProve call #%d changed after later calls (returned slice aliases shared memory)", i), hx.Hex(k.piCopy), "prove <sk> "+hx.Hex(k.m))
+		}
+		if !bytes.Equal(k.padded, k.paddedCopy) {
+			s.report("retained-padding-changed", "the slice returned by tryZeroPadding changed after later calls", hx.Hex(k.paddedCopy), "pad "+hx.Hex(k.paddedCopy))
+		}
+		if k.rat.RatString() != k.ratStr {
+			s.report("retained-rat-changed", "a *big.Rat returned by calcStakeRatio changed after later calls: "+k.ratStr+" -> "+k.rat.RatString(), k.ratStr)
+		}
+		if r := s.verify(k.pk, k.piCopy, k.m); r != "true" {
+			s.report("honest-proof-rejected", "proof generated from reused (later mutated) input buffers does not verify for the original inputs: "+r, "true", vline(k.pk, k.piCopy, k.m))
+		}
+	}
+	s.counts["retained-objects-rechecked"] = 3 * len(ks)
+}
+
 // qnRange: whenever validateProve accepts, 1 <= qn <= MaxQN; and it is a function of its inputs.
+// refPad / refRatio: reference re-implementation of the padding and of the exact ratio/step of the qualification
+// rule from its written definition (math/big only), used to classify violations independently of the code.
+func refPad(p []byte) []byte {
+	if len(p) >= 80 {
+		return p
+	}
+	return append(make([]byte, 80-len(p)), p...)
+}
+
+func refRatio(val *big.Int, thr, h, wm, t uint64) (r *big.Rat, capped bool, ok bool) {
+	if t == 0 || model.Param.MaxQN <= 0 {
+		return nil, false, false
+	}
+	diff := uint64(1)
+	if wm != 0 && h > thr {
+		diff = t / wm
+	}
+	pp := t * uint64(model.Param.PotentialProposalIndex) / 100
+	if pp < model.Param.PotentialProposal {
+		pp = model.Param.PotentialProposal
+	} else if pp > model.Param.PotentialProposalMax {
+		pp = model.Param.PotentialProposalMax
+	}
+	num := new(big.Rat).SetInt64(int64(diff * pp))
+	den := new(big.Rat).SetFloat64(float64(t))
+	sr := new(big.Rat).Quo(num, den)
+	if sr.Sign() <= 0 {
+		return nil, false, false
+	}
+	one := big.NewRat(1, 1)
+	if sr.Cmp(one) > 0 {
+		sr = one
+		capped = true
+	}
+	v := new(big.Rat).SetFrac(val, max256)
+	step := new(big.Rat).Quo(sr, new(big.Rat).SetInt64(int64(model.Param.MaxQN)))
+	return new(big.Rat).Quo(v, step), capped, true
+}
+
 func (s *searcher) qnRange(n int) {
 	maxq := uint64(model.Param.MaxQN)
 	rb := common.GetRewardBlocks()
@@ -580,12 +705,18 @@ func (s *searcher) qnRange(n int) {
 			s.report("qn-zero", "accepted proof with qn = 0", "1 <= qn <= MaxQN", line)
 			return
 		}
-		// classify: is the exact ratio r = v/(s/MaxQN) already = MaxQN (value = 2^256-1 under a capped stake ratio) or < MaxQN (float rounding)?
-		val := new(big.Int).SetBytes(ed25519.VerifC16TryZeroPadding(p)[:32])
-		if val.Cmp(max256) == 0 {
+		// classify with an INDEPENDENT exact computation (not the code under test): the two recorded classes are
+		// exactly "qn = MaxQN+1 because ratio/step = MaxQN" and "qn = MaxQN+1 because MaxQN - ratio/step is below
+		// float64 resolution"; anything else out of range is a new violation.
+		val := new(big.Int).SetBytes(refPad(p)[:32])
+		rExact, capped, okRef := refRatio(val, thr, h, wm, t)
+		switch {
+		case okRef && qn == maxq+1 && capped && val.Cmp(max256) == 0 && rExact.Cmp(new(big.Rat).SetInt64(int64(maxq))) == 0:
 			s.report("qn-above-max-value-all-ones", fmt.Sprintf("validateProve accepts with qn = %d > MaxQN = %d: value = 2^256-1 and stake ratio capped at 1 give ratio/step = MaxQN exactly", qn, maxq), "1 <= qn <= MaxQN", line)
-		} else {
+		case okRef && qn == maxq+1 && rExact.Cmp(new(big.Rat).SetInt64(int64(maxq))) < 0 && func() bool { f, _ := rExact.Float64(); return f == float64(maxq) }():
 			s.report("qn-above-max-float-rounding", fmt.Sprintf("validateProve accepts with qn = %d > MaxQN = %d: ratio/step is below MaxQN but Float64() rounds it up to %d.0", qn, maxq, maxq), "1 <= qn <= MaxQN", line)
+		default:
+			s.report("qn-out-of-range", fmt.Sprintf("validateProve accepts with qn = %d outside [1, %d] and neither recorded rounding class explains it (exact ratio/step = %s)", qn, maxq, rExact.FloatString(20)), "1 <= qn <= MaxQN", line)
 		}
 	}
 	stakes := []uint64{1, 2, 3, 5, 6, 10, 100, 12345, 1 << 20, 1<<53 + 1, 1 << 62}
@@ -642,7 +773,7 @@ func scaleW(a map[string]string) int {
 }
 
 func search(a map[string]string) {
-	s := &searcher{r: hx.NewRng(hx.SeedFromEnv() ^ 0x5eac4), seen: map[string]bool{}, perKey: map[string]int{}, counts: map[string]int{}}
+	s := &searcher{r: hx.NewRng(hx.SeedFromEnv() ^ 0x5eac4), seen: map[string]bool{}, perKey: map[string]int{}, counts: map[string]int{}, outPath: a["out"]}
 	scale := 1
 	if a["tier"] == "thorough" {
 		scale = 10
@@ -660,24 +791,17 @@ func search(a map[string]string) {
 		s.adversarial(4 * scale)
 		s.qnRange(400 * scale)
 		s.qnTransport(30*scale, 6*scale)
+		s.retention(60 * scale)
 		s.history(6 * scale)
 		s.concurrent(workers, 600*scale)
 	}
 	for k, v := range s.perKey {
 		s.counts["violations:"+k] = v
 	}
-	res := map[string]interface{}{
-		"evaluations": s.evals, "distinct": s.evals, "violations": s.viol, "samples": s.sample, "counts": s.counts,
-	}
-	if s.viol == nil {
-		res["violations"] = []violation{}
-	}
-	b, _ := json.MarshalIndent(res, "", " ")
-	if a["out"] != "" {
-		if err := os.WriteFile(a["out"], b, 0644); err != nil {
-			panic(err)
-		}
+	if s.outPath != "" {
+		s.write(true)
 	} else {
+		b, _ := json.MarshalIndent(map[string]interface{}{"evaluations": s.evals, "violations": s.viol, "counts": s.counts}, "", " ")
 		fmt.Println(string(b))
 	}
 }
